@@ -377,6 +377,17 @@ def run(ctx):
                     if ncli < (2 if ctx.quick else 12) and phase == 0:
                         ncli += 1
                         cli_roundtrip(ctx, msg.bytes, dict(spec, cli=True), scratch, 's%d' % n)
+        for bi, (name, msg) in enumerate(cases.big_cases(rng)):
+            if not ctx.mine(bi):
+                continue
+            try:
+                m = dec.process(msg.bytes)
+            except Exception:
+                ctx.count('decode_raises')
+                continue
+            ctx.count('big_cases')
+            check_message(ctx, m, enc, dict(origin='big', shape=name, ids=msg.ids, compressed=msg.compressed, nsub=msg.nsub,
+                                            hex=msg.bytes.hex()), 'c' if msg.compressed else 'u', msg.ids)
         # same layout, different owners (consecutive uncompressed subsets with equal descriptors, different bitmaps)
         for nsub in (2, 3):
             for name, msg in cases.same_layout_cases(rng, nsub=nsub):
